@@ -3477,8 +3477,11 @@ class Value(WithArithmeticMethods, _protocols.ValueProtocol, _display.PrettyPrin
                 return dim2
             return dim1
 
-        for i, (dim1, dim2) in enumerate(zip(merged_shape, other)):
-            merged_shape[i] = merge_dims(dim1, dim2)
+        # Compute every merged dimension before writing any of them so that a rejected
+        # merge (conflicting dimensions) leaves the current shape untouched
+        merged_dims = [merge_dims(dim1, dim2) for dim1, dim2 in zip(merged_shape, other)]
+        for i, dim in enumerate(merged_dims):
+            merged_shape[i] = dim
 
         self._shape = merged_shape
 
